@@ -127,7 +127,11 @@ func runKvSequence(ops []kvOp, seq int, backends []string, out *ndw, kinds map[s
 				case "setlock":
 					err = store.SetLock(uint8(o.T), o.B)
 				case "put":
-					err = store.Put(ctx, []byte(o.K), []byte(o.V))
+					buf := []byte(o.V)
+					err = store.Put(ctx, []byte(o.K), buf)
+					for j := range buf { // the caller reuses its buffer: the stored value is the store's own
+						buf[j] = '#'
+					}
 					if err == nil && o.V != "" {
 						provs[o.V] = prov{curT, curS}
 					}
@@ -138,6 +142,9 @@ func runKvSequence(ops []kvOp, seq int, backends []string, out *ndw, kinds map[s
 						ev.Val = enc(string(v))
 						if p, ok := provs[string(v)]; ok {
 							ev.Pt, ev.Ps, ev.Known = p.t, enc(p.s), true
+						}
+						for j := range v { // ... and what a read hands out is the reader's to scribble on
+							v[j] = '#'
 						}
 					}
 				case "dump":
